@@ -44,6 +44,8 @@ def toAnn : Sexp → Option AnnExpr
   | .node [.atom "bor", a, b] => do some (.bor (← toAnn a) (← toAnn b))
   | .node [.atom "str", e] => (toAnn e).map .str
   | .node [.atom "name", .atom n] => n.toNat?.map .name
+  | .node (.atom "dot" :: .atom n :: p) => do
+    some (.dotted (← n.toNat?) (← p.mapM fun | .atom a => a.toNat? | _ => none))
   | _ => none
 def toAnnL : List Sexp → Option (List AnnExpr)
   | [] => some []
@@ -75,6 +77,7 @@ def showAnn : AnnExpr → String
   | .bor a b => "(bor " ++ showAnn a ++ " " ++ showAnn b ++ ")"
   | .str e => "(str " ++ showAnn e ++ ")"
   | .name n => s!"(name {n})"
+  | .dotted n p => s!"(dot {n}" ++ String.join (p.map fun a => s!" {a}") ++ ")"
 def showAnnL : List AnnExpr → String
   | [] => ""
   | x :: xs => " " ++ showAnn x ++ showAnnL xs
@@ -94,6 +97,7 @@ def toTarget : Sexp → Option NameTarget
   | .node [.atom "nt", .atom n, .atom c] => do some (.newtype (← n.toNat?) (← c.toNat?))
   | .node [.atom "bare", .atom c] => c.toNat?.map .bare
   | .node [.atom "opq", .atom k] => k.toNat?.map .opaque
+  | .node [.atom "obj", .atom k] => k.toNat?.map .objv
   | _ => none
 
 def toBindings (xs : List Sexp) : Option Bindings :=
@@ -103,7 +107,14 @@ def toBindings (xs : List Sexp) : Option Bindings :=
 
 def toEnv : Sexp → Option NameEnv
   | .node [.atom "env", .node (.atom "early" :: e), .node (.atom "late" :: l), .node (.atom "builtins" :: b)] => do
-    some ⟨← toBindings e, ← toBindings l, ← toBindings b⟩
+    some ⟨← toBindings e, ← toBindings l, ← toBindings b, []⟩
+  | .node [.atom "env", .node (.atom "early" :: e), .node (.atom "late" :: l), .node (.atom "builtins" :: b),
+           .node (.atom "attrs" :: a)] => do
+    -- attributes: `(k a tgt)` = getattr(object k, attribute a)
+    let atb ← a.mapM fun
+      | .node [.atom k, .atom x, t] => do some (attrKey (← k.toNat?) (← x.toNat?), (← toTarget t))
+      | _ => none
+    some ⟨← toBindings e, ← toBindings l, ← toBindings b, atb⟩
   | _ => none
 
 def annRClasses (env : NameEnv) (e : AnnExpr) : String :=
